@@ -8,6 +8,7 @@
 #include "transposition_table.h"
 #include "types.h"
 
+#include <atomic>
 #include <chrono>
 #include <cstdint>
 
@@ -92,7 +93,7 @@ class Search
     Limits limits;
 
     int64_t check_limits_counter;
-    bool stop_search;
+    std::atomic<bool> stop_search;
 
     Duration _search_time;
     Depth _search_depth;
